@@ -40,7 +40,12 @@ func stateAnnotation(s *Scanner, c byte) *jerr.JApiError {
 func stateMultilineAnnotationTextStart(s *Scanner, c byte) *jerr.JApiError {
 	s.foundAt(s.curIndex, AnnotationBegin)
 	s.step = stateMultilineAnnotation
-	return stateMultilineAnnotation(s, c)
+	if c == EOF {
+		return stateMultilineAnnotation(s, c)
+	}
+	// The first character of the text cannot close the annotation: the asterisk
+	// before it belongs to the opening "/*".
+	return nil
 }
 
 func stateMultilineAnnotation(s *Scanner, c byte) *jerr.JApiError {
